@@ -102,60 +102,95 @@ def run(chk):
     chk.check(okl, 'C16-R1', RA, Q, 'every array unpack_pids returns becomes a column of the same name', '', 'returned PID arrays are not all added under their own names', node=pl[0] if pl else fn)
     if literal < 3:
         raise AnalysisError('read_asdf: pos/vel/aux column additions not recognised')
-    # ---- R2 defaults (evaluate the `if load is None:` block on literal colnames)
-    blocks = [n for n in rc.body if isinstance(n, ast.If) and unparse(n.test) == 'load is None']
-    if len(blocks) != 1:
-        raise AnalysisError('_resolve_columns: default block not found')
-    want = {'rvint': ['pos', 'vel'], 'pack9': ['pos', 'vel'], 'packedpid': ['pid'], 'pid': ['pid']}
-    for cn, exp in want.items():
-        got = []
-        okv = True
-        for s in blocks[0].body:
-            if isinstance(s, ast.Assign) and unparse(s.targets[0]) == 'load':
-                got = list(val(s.value, {}) or [])
-            elif isinstance(s, ast.If):
-                c = ev_cond(s.test, {'colname': cn})
-                if c is None:
-                    okv = False
-                elif c:
-                    for b in s.body:
-                        if isinstance(b, ast.AugAssign) and unparse(b.target) == 'load':
-                            got += list(val(b.value, {}) or ['?'])
-        chk.check(okv and got == exp, 'C16-R2', RA, '_resolve_columns', f'default columns for raw column {cn!r}', f'{got}',
-                  f'default load list for a {cn!r} file is {got}; documented default is {exp}', node=blocks[0], nf=got)
-    ret = [n for n in rc.body if isinstance(n, ast.Return)]
-    chk.check(len(ret) == 1 and unparse(ret[0].value) == 'tuple(load)', 'C16-R2', RA, '_resolve_columns', 'returns the resolved list', '',
-              f'_resolve_columns returns {unparse(ret[0].value) if ret else None}', node=rc, nontrivial=False)
-    # deprecated flags
-    dep = [n for n in walk_no_nested(rc) if isinstance(n, ast.If) and 'load_pos' in unparse(n.test) and isinstance(n.body[0], ast.AugAssign)]
-    txt = {unparse(n.test): unparse(n.body[0]) for n in dep}
-    okd = txt.get('load_pos or (load_pos is None and load_vel is False)') == "load += ['pos']" and \
-        txt.get('load_vel or (load_vel is None and load_pos is False)') == "load += ['vel']"
-    chk.check(okd, 'C16-R2', RA, '_resolve_columns', 'deprecated load_pos / load_vel flags', '', f'deprecated flag mapping changed: {txt}', node=rc, nontrivial=False)
-    # ---- R3 detection
-    det = [n for n in walk_no_nested(fn) if isinstance(n, ast.If) and unparse(n.test) == 'colname is None' and any(isinstance(b, ast.For) for b in n.body)]
-    if len(det) != 1:
+    # ---- R2 defaults and deprecated flags: constant propagation of _resolve_columns over its finite input domain
+    import itertools
+    from ..core.pe import PE, Raised, Undecided, UNKNOWN
+    modfuncs = {n.name: n for n in src.tree(RA).body if isinstance(n, ast.FunctionDef)}
+    argn = [a.arg for a in rc.args.args]
+    if len(argn) != 3:
+        raise AnalysisError('_resolve_columns: signature changed')
+
+    def spec(cn, load, lp, lv):
+        if load is not None:
+            return tuple(load)
+        if lp is not None or lv is not None:
+            out = []
+            if lp or (lp is None and lv is False):
+                out.append('pos')
+            if lv or (lv is None and lp is False):
+                out.append('vel')
+            return tuple(out)
+        out = []
+        if cn in ('pack9', 'rvint'):
+            out += ['pos', 'vel']
+        if 'pid' in cn:
+            out += ['pid']
+        return tuple(out)
+    bad, ncase, undec = [], 0, []
+    for cn, load, lp, lv in itertools.product(('rvint', 'pack9', 'packedpid', 'pid'), (None, ('pos',), ('vel', 'pid'), ()), (None, True, False), (None, True, False)):
+        kwargs = {}
+        if lp is not None:
+            kwargs['load_pos'] = lp
+        if lv is not None:
+            kwargs['load_vel'] = lv
+        pe = PE(modfuncs)
+        try:
+            got = pe.run(rc.body, {argn[0]: cn, argn[1]: (list(load) if isinstance(load, tuple) and False else load), argn[2]: kwargs})
+        except Raised as r:
+            got = f'raises {r.kind}'
+        except Undecided as u:
+            undec.append(str(u))
+            continue
+        ncase += 1
+        if got is UNKNOWN:
+            undec.append('result not constant')
+        elif got != spec(cn, load, lp, lv):
+            bad.append((cn, load, lp, lv, got, spec(cn, load, lp, lv)))
+    if undec:
+        chk.unknown('C16-R2', RA, '_resolve_columns', 'column resolution evaluates to a constant for every option combination', f'not decided: {undec[:2]}', node=rc)
+    else:
+        for cn in ('rvint', 'pack9', 'packedpid', 'pid'):
+            b = [x for x in bad if x[0] == cn and x[1] is None and x[2] is None and x[3] is None]
+            chk.check(not b, 'C16-R2', RA, '_resolve_columns', f'default columns for raw column {cn!r}', f'{spec(cn, None, None, None)}',
+                      f'default load list for a {cn!r} file is {b[0][4] if b else None}; documented default is {spec(cn, None, None, None)}', node=rc, nf=list(spec(cn, None, None, None)))
+        b = [x for x in bad if not (x[1] is None and x[2] is None and x[3] is None)]
+        chk.check(not b, 'C16-R2', RA, '_resolve_columns', 'explicit load wins; deprecated load_pos / load_vel mapped as documented', f'{ncase} option combinations',
+                  '; '.join(f'colname={x[0]!r}, load={x[1]}, load_pos={x[2]}, load_vel={x[3]} resolves to {x[4]}, documented {x[5]}' for x in b[:2]), node=rc)
+    # ---- R3 detection: the `if colname is None:` block, constant-propagated for every subset of known raw columns in the file
+    det = [n for n in walk_no_nested(fn) if isinstance(n, ast.If) and unparse(n.test) == 'colname is None' and n.lineno < min(a.lineno for a in adds)]
+    if not det:
         raise AnalysisError('read_asdf: detection block not found')
     Dt = det[0]
-    names = None
-    for s in Dt.body:
-        if isinstance(s, ast.Assign) and isinstance(s.value, ast.List):
-            names = val(s.value, {})
-            lname = unparse(s.targets[0])
-    loop = [s for s in Dt.body if isinstance(s, ast.For)][0]
-    cnv = loop.target.id
-    okdet = names is not None and unparse(loop.iter) == lname
-    inner = [b for b in loop.body if isinstance(b, ast.If)]
-    okdup = False
-    if len(inner) == 1 and unparse(inner[0].test) == f'{cnv} in af.tree[data_key]':
-        b = inner[0].body
-        okdup = len(b) == 2 and isinstance(b[0], ast.If) and unparse(b[0].test) == 'colname is not None' and isinstance(b[0].body[0], ast.Raise) \
-            and unparse(b[1]) == f'colname = {cnv}'
-    chk.check(okdet and okdup, 'C16-R3', RA, Q, 'a second known raw column raises; otherwise colname is the one found', f'{names}',
-              'detection loop no longer raises for several known raw columns / binds colname to the found key', node=loop)
-    after = Dt.body[Dt.body.index(loop) + 1:]
-    oknone = any(isinstance(s, ast.If) and unparse(s.test) == 'colname is None' and isinstance(s.body[0], ast.Raise) for s in after)
-    chk.check(oknone, 'C16-R3', RA, Q, 'no known raw column raises', '', 'a file without any known raw column no longer raises', node=Dt)
+    known = ('rvint', 'pack9', 'packedpid', 'pid')
+    names = list(known)
+    tree_exprs = sorted({unparse(n) for n in ast.walk(Dt) if isinstance(n, ast.Subscript) and 'af.tree' in unparse(n.value) and 'data_key' in unparse(n.slice)})
+    wrong, undec = [], []
+    for r in range(len(known) + 1):
+        for present in itertools.combinations(known, r):
+            filedata = {k: 0 for k in present}
+            filedata['other_column'] = 0
+            pe = PE(modfuncs, text_env={t: filedata for t in tree_exprs})
+            env = {'colname': None, 'fn': 'file.asdf', 'data_key': 'data'}
+            try:
+                pe.block(Dt.body, env)
+                out = env.get('colname')
+            except Raised as rr:
+                out = f'raises {rr.kind}'
+            except Undecided as u:
+                undec.append(str(u))
+                continue
+            exp = present[0] if len(present) == 1 else 'raises ValueError'
+            if out != exp:
+                wrong.append((present, out, exp))
+    if undec:
+        chk.unknown('C16-R3', RA, Q, 'detection decided for every set of raw columns', f'not decided: {undec[:2]}', node=Dt)
+    else:
+        many = [w for w in wrong if len(w[0]) > 1]
+        one = [w for w in wrong if len(w[0]) == 1]
+        none = [w for w in wrong if len(w[0]) == 0]
+        chk.check(not many and not one, 'C16-R3', RA, Q, 'a second known raw column raises; otherwise colname is the one found', f'{names}',
+                  '; '.join(f'file with {list(w[0])}: detection gives {w[1]}, expected {w[2]}' for w in (many + one)[:2]), node=Dt)
+        chk.check(not none, 'C16-R3', RA, Q, 'no known raw column raises', '', f'a file without any known raw column gives {none[0][1] if none else None} instead of ValueError', node=Dt)
     # ---- R6 branch exhaustiveness
     chain = None
     for n in walk_no_nested(fn):
@@ -192,21 +227,9 @@ def run(chk):
                   f'raw column {cn!r}: matching branches {hits}, decoder {decoder!r} (expected {wantdec}), row count defined={nread_def}', node=chain)
     # ---- R4
     for dec in ('unpack_rvint', 'unpack_pack9'):
-        cs = [n for n in walk_no_nested(fn) if isinstance(n, ast.Call) and dotted(n.func) == dec]
-        ok = len(cs) == 1
-        if ok:
-            kw = {k.arg: unparse(k.value) for k in cs[0].keywords}
-            blk = cs[0]
-            while not isinstance(blk, ast.If):
-                blk = blk._parent
-            defs = {unparse(s.targets[0]): unparse(s.value) for s in blk.body if isinstance(s, ast.Assign) and isinstance(s.targets[0], ast.Name)}
-            ok = kw.get('float_dtype') == 'dtype' and kw.get('posout') == '_posout' and kw.get('velout') == '_velout' and \
-                defs.get('_posout') == "table['pos'] if 'pos' in load else False" and defs.get('_velout') == "table['vel'] if 'vel' in load else False" and \
-                unparse(cs[0].args[0]) == 'data' and unparse(cs[0].args[1]) == "header['BoxSize']" and defs.get('nread') == 'max(npos, nvel)'
-            if dec == 'unpack_pack9':
-                ok = ok and unparse(cs[0].args[2]) == "header['VelZSpace_to_kms']"
-        chk.check(ok, 'C16-R4', RA, Q, f'{dec} decodes into the table\'s own pos/vel buffers (float_dtype=dtype, BoxSize from the header)', '',
-                  f'{dec} call no longer receives the table buffers / dtype / header scales', node=cs[0] if cs else fn)
+        ok, why, node_ = decoder_call(src, dec)
+        chk.check(ok, 'C16-R4', RA, Q, f'{dec} decodes into the table\'s own pos/vel buffers (float_dtype=dtype, scales from the header); rows = max of the returned counts', '',
+                  f'{dec}: {why}', node=node_)
     pc = [n for n in walk_no_nested(fn) if isinstance(n, ast.Call) and dotted(n.func) == 'unpack_pids']
     kw = {k.arg: unparse(k.value) for k in pc[0].keywords} if pc else {}
     chk.check(bool(pc) and kw.get('float_dtype') == 'dtype' and kw.get('box') == "header['BoxSize']" and kw.get('ppd') == 'ppd' and unparse(pc[0].args[0]) == 'data',
@@ -223,3 +246,48 @@ def run(chk):
     ld = [n for n in walk_no_nested(fn) if isinstance(n, ast.Assign) and unparse(n.targets[0]) == 'load']
     chk.check(len(ld) == 1 and unparse(ld[0].value) == '_resolve_columns(colname, load, kwargs)' and ld[0].lineno < min(a.lineno for a in adds),
               'C16-R4', RA, Q, 'load list resolved once, before any column is added', '', 'load list is not resolved before the columns are created', node=ld[0] if ld else fn, nontrivial=False)
+
+
+def decoder_call(src, dec):
+    """(ok, why, node) for the single call of decoder `dec` in read_asdf: arguments resolved through the function's locals;
+    the row count taken right after the call must be the larger of the two returned counts."""
+    fn = src.func(RA, Q)
+    ldefs = {}
+    for n_ in walk_no_nested(fn):
+        if isinstance(n_, ast.Assign) and len(n_.targets) == 1 and isinstance(n_.targets[0], ast.Name):
+            ldefs.setdefault(n_.targets[0].id, []).append(n_)
+
+    def resolved(e, at_line, depth=0):
+        """Text of e with locals replaced by their (unique reaching, textually identical) definitions."""
+        import copy as _c
+
+        class _R(ast.NodeTransformer):
+            def visit_Name(self_, n_):
+                if isinstance(n_.ctx, ast.Load) and n_.id in ldefs and depth < 4 and n_.id not in ('table', 'data', 'header', 'load', 'dtype', 'colname'):
+                    ds = [d for d in ldefs[n_.id] if d.lineno < at_line]
+                    if ds and len({unparse(d.value) for d in ds}) == 1 and not isinstance(ds[-1].value, ast.Call):
+                        return ast.parse(resolved(ds[-1].value, ds[-1].lineno, depth + 1), mode='eval').body
+                return n_
+        return unparse(_R().visit(_c.deepcopy(e)))
+    cs = [n for n in walk_no_nested(fn) if isinstance(n, ast.Call) and dotted(n.func) == dec]
+    ok = len(cs) == 1
+    why = f'{len(cs)} calls'
+    if ok:
+        call = cs[0]
+        kw = {k.arg: resolved(k.value, call.lineno) for k in call.keywords}
+        pos = [resolved(a, call.lineno) for a in call.args]
+        st = call
+        while not isinstance(st, ast.stmt):
+            st = st._parent
+        blk = st._parent
+        counts = [t.id for t in st.targets[0].elts] if isinstance(st, ast.Assign) and isinstance(st.targets[0], ast.Tuple) and all(isinstance(t, ast.Name) for t in st.targets[0].elts) else []
+        nrd = [x for x in (blk.body if st in getattr(blk, 'body', []) else getattr(blk, 'orelse', [])) if isinstance(x, ast.Assign) and unparse(x.targets[0]) == 'nread' and x.lineno > st.lineno]
+        oknr = len(counts) == 2 and len(nrd) == 1 and unparse(nrd[0].value).replace(' ', '') in (f'max({counts[0]},{counts[1]})', f'max({counts[1]},{counts[0]})')
+        okargs = kw.get('float_dtype') == 'dtype' and kw.get('posout') == "table['pos'] if 'pos' in load else False" and \
+            kw.get('velout') == "table['vel'] if 'vel' in load else False" and pos[:2] == ['data', "header['BoxSize']"]
+        if dec == 'unpack_pack9':
+            okargs = okargs and len(pos) > 2 and pos[2] == "header['VelZSpace_to_kms']"
+        ok = okargs and oknr
+        why = (f'arguments {pos} {kw}' if not okargs else '') + ('' if oknr else f'; row count after the call is {unparse(nrd[0].value) if nrd else None}: it must be the larger of the two '
+                                                                  f'returned counts {counts} (a decoder returns 0 for an output that was not requested)')
+    return ok, why, (cs[0] if cs else fn)
